@@ -59,3 +59,9 @@ CLAIMS["C05"] = (
  "Trusted: cmd/ogen as macro-expander; fixture corpus; the regular statement shapes of router.tmpl (other shapes are reported undecided).",
  "static analysis: decision-tree extraction from the regenerated router's AST, sibling comparison ServeHTTP/FindPath, path-sensitive restore rule, SSA must/at-most-one outcome analysis",
 )
+CLAIMS["C19"] = (
+ "other",
+ "A static race-freedom argument that holds for every schedule: no instruction outside package initialisers / sync.Once bodies stores to a package-level variable or through a pointer, map or slice loaded from one (runtime packages and every expanded package); a *big.Rat loaded from a validator is never a mutating receiver; in every generated send<Op> the mutated *url.URL is the result of uri.Clone/url.Parse; no method of the shared Server/Client types stores through its receiver; pooled jx objects are not used after a non-deferred Put nor stored away. Thread-safety of dependencies, user handlers and outcome-equality beyond the absence of shared mutable state are NOT decided.",
+ "Trusted: sync.Pool/sync.Once internals; aliasing approximated by address roots (global / receiver = shared, Alloc / call result = local); fixture corpus for S2 rules; frozen list of mutating big.Rat methods.",
+ "static analysis: effect / who-may-write analysis on SSA address roots, typestate on pooled objects",
+)
